@@ -385,38 +385,48 @@ type verifAuthConn struct {
 
 func (c *verifAuthConn) Authorize(ctx context.Context, username string, password []byte) bool { return c.ok }
 
-// VerifC18Jail: one step of Backend.getUserID from an arbitrary failure count: wrong credentials never yield a user
-// id, a success resets the counter, and the third consecutive failure enters the jail: it reports ErrLoginBlocked,
-// registers exactly one timer and leaves the wait group non-zero so that the next attempt blocks until the timer ran.
+// VerifC18Jail: a sequence of LOGIN attempts (any user names, right or wrong credentials) against Backend.getUserID:
+// wrong credentials never yield a user id, and after three consecutive failures the attempt reports the jail and the
+// next attempt is not answered before the jail timer has run (under the engine the call blocks: the path ends
+// BLOCKED; reaching the statement after it means the attempt was answered).
 func VerifC18Jail() {
+	k := vsymParam("k")
 	u, _, _ := verifUser()
-	conn := &verifAuthConn{ok: vsymChoice("credentialsOK", 2) == 1}
+	conn := &verifAuthConn{}
 	u.connector = conn
-	b := &Backend{users: map[string]*user{"verif": u}, loginJailTime: 3600 * 1000000000, log: logrus.WithField("pkg", "gluon/backend")}
-	count := vsymInt32("loginErrorCount")
-	vsymAssume(count >= 0)
-	vsymAssume(count < maxLoginAttempts)
-	b.loginErrorCount = count
-	ctx := context.Background()
-	id, err := b.getUserID(ctx, "user", []byte("pass"))
-	if conn.ok {
-		vsymCover("login-ok")
-		vsymAssert(err == nil && id == "verif", "right credentials authenticate")
-		vsymAssert(b.loginErrorCount == 0, "a success resets the failure counter")
-		return
+	b, err := New("", "", nil, "/", 3600*1000000000, limits.DefaultLimits(), nil, nil)
+	if err != nil {
+		panic(err)
 	}
-	vsymAssert(err != nil && id == "", "wrong credentials never authenticate")
-	vsymAssert(b.loginErrorCount == count+1, "a failure is counted")
-	if count+1 == maxLoginAttempts {
-		vsymCover("jail-entered")
-		vsymAssert(errors.Is(err, ErrLoginBlocked), "the third consecutive failure reports the jail")
-		// the next attempt must not be answered before the jail timer has run: under the engine this call blocks
-		// (the path ends BLOCKED); reaching the assertion below means it was answered
-		conn.ok = true
-		_, _ = b.getUserID(ctx, "user", []byte("pass"))
-		vsymAssert(false, "an attempt after three failures is answered before the jail time has passed")
-	} else {
+	b.log = logrus.WithField("pkg", "gluon/backend")
+	b.users["verif"] = u
+	ctx := context.Background()
+	failures := 0
+	for i := 0; i < k; i++ {
+		conn.ok = vsymChoice("credentialsOK", 2) == 1
+		name := []string{"user", "user1", "nobody"}[vsymChoice("name", 3)]
+		id, err := b.getUserID(ctx, name, []byte("pass"))
+		if conn.ok {
+			vsymCover("login-ok")
+			vsymAssert(err == nil && id == "verif", "right credentials authenticate")
+			failures = 0
+			continue
+		}
+		vsymAssert(err != nil && id == "", "wrong credentials never authenticate")
+		failures++
+		if failures == maxLoginAttempts {
+			vsymCover("jail-entered")
+			vsymAssert(errors.Is(err, ErrLoginBlocked), "the third consecutive failure reports the jail")
+			conn.ok = true
+			_, _ = b.getUserID(ctx, "user", []byte("pass"))
+			vsymAssert(false, "an attempt after three consecutive failures is answered before the jail time has passed")
+			return
+		}
 		vsymCover("failure-counted")
 		vsymAssert(errors.Is(err, ErrNoSuchUser), "an ordinary failure reports no such user")
 	}
+	// fewer than three consecutive failures: the next attempt is answered at once
+	conn.ok = true
+	id, err := b.getUserID(ctx, "user", []byte("pass"))
+	vsymAssert(err == nil && id == "verif", "no jail without three consecutive failures")
 }
